@@ -1,0 +1,25 @@
+//go:build verif
+
+// Verification hook (add-only, compiled only with -tags verif): lets the C06 harness of /verif run the
+// chunking state machine of pebbleSnapshot (Valid / Chunk / Next) over an arbitrary directory of files
+// (empty files, sizes that are exact multiples of MaxSnapshotChunkSize, ...) without a Pebble checkpoint.
+// The chunk size itself is the exported package variable MaxSnapshotChunkSize. No logic here.
+package kv
+
+import "os"
+
+// VerifSnapshotOfDir lists the regular files of dir the way newPebbleSnapshot lists the checkpoint
+// directory and returns the snapshot object over them. Close() removes dir, as for a real snapshot.
+func VerifSnapshotOfDir(dir string) (Snapshot, error) {
+	ps := &pebbleSnapshot{path: dir}
+	dirEntries, err := os.ReadDir(dir)
+	if err != nil {
+		return nil, err
+	}
+	for _, de := range dirEntries {
+		if !de.IsDir() {
+			ps.files = append(ps.files, de.Name())
+		}
+	}
+	return ps, nil
+}
